@@ -551,7 +551,9 @@ pub fn run_loopback(ctx: Ctx) -> Report {
             rep.inconclusive("cannot start server");
             return rep;
         };
-        let client = netkit::make_client(&server_addr, netkit::PASSWORD, engine::default_padding(), netkit::quiet_pool());
+        // the pool sheds idle sessions quickly (1 s), so that "nothing left behind" can be read off the number of
+        // live tasks: a session that was given back is reaped, one that was abandoned stays for ever
+        let client = netkit::make_client(&server_addr, netkit::PASSWORD, engine::default_padding(), anytls_rs::client::SessionPoolConfig { check_interval: Duration::from_millis(500), idle_timeout: Duration::from_secs(1), min_idle_sessions: 0 });
         let (Some((socks, _h1)), Some((http, _h2))) = (netkit::start_socks5(client.clone()).await, netkit::start_http(client.clone()).await) else {
             rep.inconclusive("cannot start front-ends");
             return rep;
@@ -568,7 +570,7 @@ pub fn run_loopback(ctx: Ctx) -> Report {
         });
         // warm up + baseline
         let _ = netkit::socks5_connect(&socks, &SocksDest::V4(std::net::Ipv4Addr::new(127, 33, 0, 1), tport), Duration::from_secs(10)).await;
-        tokio::time::sleep(Duration::from_millis(300)).await;
+        tokio::time::sleep(Duration::from_millis(2600)).await; // the warm-up session has been reaped by now
         let baseline = run::alive_tasks();
         let n_c = if quick { 300 } else { 6000 };
         let mut inputs: Vec<(bool, Vec<u8>)> = Vec::new();
@@ -594,6 +596,13 @@ pub fn run_loopback(ctx: Ctx) -> Report {
                 }
             };
             inputs.push((to_http, b));
+        }
+        // replay aid: VERIF_C20_RANGE=a:b sends only inputs a..b
+        if let Some((a, b)) = std::env::var("VERIF_C20_RANGE").ok().and_then(|v| v.split_once(':').map(|(a, b)| (a.parse::<usize>().unwrap_or(0), b.parse::<usize>().unwrap_or(usize::MAX)))) {
+            inputs = inputs.into_iter().enumerate().filter(|(i, _)| *i >= a && *i < b).map(|(_, x)| x).collect();
+            for (to_http, b) in &inputs {
+                eprintln!("input to_http={to_http} {}", hex(&b[..b.len().min(80)]));
+            }
         }
         let socks2 = socks.clone();
         let http2 = http.clone();
@@ -630,9 +639,19 @@ pub fn run_loopback(ctx: Ctx) -> Report {
             rep.violate("robustness", "http_listener", "well_formed_request_fails_after_hostile_input", "a well-formed CONNECT was not served after the hostile connections".to_string(), json!({"kind": "c20-listeners"}));
         }
         tokio::time::sleep(Duration::from_secs(3)).await;
-        let after = run::alive_tasks();
+        let mut after = run::alive_tasks();
+        // a hostile request may have started an open that is still running its course (the server's connect
+        // timeout, the client's 30 s wait for the answer): such tasks end by themselves. Only what is still there
+        // after those bounds have passed was left behind.
+        let t_settle = tokio::time::Instant::now();
+        while (after > baseline + 20 && t_settle.elapsed() < Duration::from_secs(45)) || (after > baseline + 2 && t_settle.elapsed() < Duration::from_secs(9)) {
+            tokio::time::sleep(Duration::from_secs(3)).await;
+            after = run::alive_tasks();
+        }
+        rep.max("max_listener_tasks_settle_s", 3 + t_settle.elapsed().as_secs());
+        rep.max("max_listener_tasks_above_baseline_after_settling", after.saturating_sub(baseline) as u64);
         rep.add("listener_tasks_baseline", baseline as u64);
-        if after > baseline + 40 {
+        if after > baseline + 20 {
             rep.violate("robustness", "listeners", "task_wedged", format!("{} hostile connections (all closed by the sender) left {} additional tasks alive ({baseline} -> {after})", inputs.len(), after - baseline), json!({"kind": "c20-listeners"}));
         }
         rep
